@@ -208,7 +208,7 @@ func (g *msgGen) anyPayload(depth int) (proto.Message, string) {
 	return m, name
 }
 
-var vMapKeys = []string{"k", "", "!type", "ключ", "a.b", "with space", "k2"}
+var vMapKeys = []string{"k", "", "!type", "ключ", "a.b", "with space", "k2", "quo\"te", "back\\slash", "tab\tnl\n", "\x01ctl", "emoji😀", "</script>"}
 
 // message builds a message of the modelled type.
 func (g *msgGen) message(full string, depth int) *dynamicpb.Message {
